@@ -436,6 +436,13 @@ def rule_R07(ctx):
     return [r1, r2, r3, r4, r5]
 
 
+def _stmt_arm_helper(call):
+    """Per-statement helpers: private functions that, like the statement
+    evaluator itself, yield an Escape."""
+    g = call.fn.prog.fns.get(call.res)
+    return g is not None and bool(g.locals) and is_esc_carrier(g.locals[0])
+
+
 def rule_R07_6(ctx):
     prog = ctx.prog
     r = RuleResult("R07.6", "`for` takes its snapshot once before the loop; "
@@ -448,7 +455,12 @@ def rule_R07_6(ctx):
         r.anchor_missing("statement evaluator")
         return r
     se, se_path = ses[0]
+    # loops moved into private per-statement helpers are seen through
+    import inline
     vf = mir.VariantFlow(se, [(se_path, STMT)])
+    if not any({t[0] for t in vf.at(h)} in ({"While"}, {"For"}) for h in se.natural_loops()):
+        se = inline.view(prog, se, pick=_stmt_arm_helper)
+        vf = mir.VariantFlow(se, [(se_path, STMT)])
     graph = prog.call_graph()
     reach_se = {p for p in prog.fns if se.path in prog.reachable_from([p], graph)}
 
